@@ -91,6 +91,7 @@ Section Interp.
 End Interp.
 
 Arguments get {cell} absent s p.
+Definition cell_at {cell : Type} (absent : cell) (s : list cell) (p : path) : cell := get absent s p.   (* [get] is shadowed by String.get further down *)
 Arguments set {cell} s p c.
 Arguments run_ops {cell} absent partial is_absent cur l s.
 Arguments run_op {cell} absent partial is_absent cur o s.
@@ -302,3 +303,309 @@ Definition kind_ok (k : string * string * list fam * option (list fam)) : bool :
   | Some rs => covers (snd (fst k)) rs
   | None => false
   end.
+
+(* ------------------------------------------------------------------ field-level serialisation
+   Generic over the FIELD MAPS generated into Gen/DumpKeys.v: which attribute the dumper stores under
+   which key (dentry) and which key the loader reads into which attribute through which conversion
+   (lentry).  Tensors, label arrays, qntot, coeff are opaque payloads of an arbitrary type P. *)
+
+Definition key_eqb (a b : key) : bool :=
+  match a, b with
+  | KConst s, KConst t => String.eqb s t
+  | KIdx p i, KIdx q j => String.eqb p q && Nat.eqb i j
+  | _, _ => false
+  end.
+
+(* conversions the loaders apply to what np.load returns *)
+Inductive conv :=
+| CNone                (* used as is *)
+| CInt                 (* int(x) *)
+| CBool                (* bool(x) *)
+| CAstypeInt           (* x.astype(int) *)
+| CItem0               (* x.item(0) *)
+| CAstypeIntTolist     (* x.astype(int).tolist(): an ndarray becomes nested python lists *)
+| CLast.               (* x[-1] *)
+
+Inductive dentry :=
+| DConstStr (k s : string)           (* d[k] = "s" *)
+| DNSites (k : string)               (* d[k] = self.site_num | len(self) *)
+| DScalar (k a : string)             (* d[k] = getattr(self, a), a scalar attribute *)
+| DLabelList (k : string)            (* d[k] = the whole list of per-bond label arrays (self.qn, re-wrapped as object array) *)
+| DTensorFam (pre : string)          (* d[pre_i] = tensor i, i < n *)
+| DLabelFam (pre : string) (off : nat). (* d[pre_i] = label array i, i < n + off *)
+
+Inductive lentry :=
+| LVersionIn (k : string) (vs : list string)   (* the value under k must be one of vs (assert / version dispatch) *)
+| LNSites (k : string) (c : conv)              (* n = c(d[k]) *)
+| LTensorFam (pre : string)                    (* tensors = [d[pre_i] for i < n] *)
+| LLabelList (k : string) (c : conv)           (* labels = c(d[k]) *)
+| LLabelFam (pre : string) (off : nat) (c : conv)  (* labels = [c(d[pre_i]) for i < n + off] *)
+| LScalar (a k : string) (c : conv).           (* obj.a = c(d[k]) *)
+
+Section Ser.
+  Variable P : Type.
+
+  Inductive value :=
+  | VStr (s : string) | VNat (n : nat) | VBool (b : bool)
+  | VPay (p : P)            (* an ndarray / scalar as stored *)
+  | VPayAsList (p : P)      (* the same data as nested python lists: NOT the same field value *)
+  | VList (l : list P).     (* list / object array of label arrays *)
+
+  (* typing of conversions: Some v' = what the loader stores; the round trip needs v' = v *)
+  Definition conv_apply (c : conv) (v : value) : option value :=
+    match c, v with
+    | CNone, _ => Some v
+    | CInt, VNat n => Some (VNat n)
+    | CBool, VBool b => Some (VBool b)
+    | CAstypeInt, VPay p => Some (VPay p)          (* label arrays and qntot are integer arrays *)
+    | CItem0, VPay p => Some (VPay p)              (* the prefactor is a scalar *)
+    | CAstypeIntTolist, VPay p => Some (VPayAsList p)
+    | _, _ => None                                 (* incl. CLast: not the stored value *)
+    end.
+
+  Record obj := mk_obj {
+    o_tensors : list P;
+    o_labels : list P;
+    o_scalar : string -> value      (* qnidx, qntot, to_right, coeff, ... by attribute name *)
+  }.
+
+  Definition dict := list (key * value).
+
+  (* python dict semantics: the LAST store under a key wins *)
+  Fixpoint lookup (k : key) (d : dict) : option value :=
+    match d with
+    | [] => None
+    | (k', v) :: d' =>
+        match lookup k d' with
+        | Some x => Some x
+        | None => if key_eqb k k' then Some v else None
+        end
+    end.
+
+  Definition emit_fam (pre : string) (l : list P) : dict :=
+    map (fun ip => (KIdx pre (fst ip), VPay (snd ip))) (combine (seq 0 (List.length l)) l).
+
+  Definition emit (m : obj) (e : dentry) : dict :=
+    match e with
+    | DConstStr k s => [(KConst k, VStr s)]
+    | DNSites k => [(KConst k, VNat (List.length (o_tensors m)))]
+    | DScalar k a => [(KConst k, o_scalar m a)]
+    | DLabelList k => [(KConst k, VList (o_labels m))]
+    | DTensorFam pre => emit_fam pre (o_tensors m)
+    | DLabelFam pre off => emit_fam pre (firstn (List.length (o_tensors m) + off) (o_labels m))
+    end.
+
+  Definition dump (dm : list dentry) (m : obj) : dict := flat_map (emit m) dm.
+
+  (* ---- load ---- *)
+  Definition bind {A B : Type} (x : option A) (f : A -> option B) : option B :=
+    match x with Some a => f a | None => None end.
+
+  Fixpoint mapM {A B : Type} (f : A -> option B) (l : list A) : option (list B) :=
+    match l with
+    | [] => Some []
+    | x :: l' => bind (f x) (fun y => bind (mapM f l') (fun ys => Some (y :: ys)))
+    end.
+
+  Definition as_pay (v : value) : option P := match v with VPay p => Some p | _ => None end.
+  Definition as_list (v : value) : option (list P) := match v with VList l => Some l | _ => None end.
+  Definition as_nat (v : value) : option nat := match v with VNat n => Some n | _ => None end.
+
+  Definition read (d : dict) (k : key) (c : conv) : option value := bind (lookup k d) (conv_apply c).
+
+  Fixpoint versions_ok (lm : list lentry) (d : dict) : bool :=
+    match lm with
+    | [] => true
+    | LVersionIn k vs :: lm' =>
+        match lookup (KConst k) d with
+        | Some (VStr s) => existsb (String.eqb s) vs && versions_ok lm' d
+        | _ => false
+        end
+    | _ :: lm' => versions_ok lm' d
+    end.
+
+  Fixpoint load_nsites (lm : list lentry) (d : dict) : option nat :=
+    match lm with
+    | [] => None
+    | LNSites k c :: _ => bind (read d (KConst k) c) as_nat
+    | _ :: lm' => load_nsites lm' d
+    end.
+
+  Fixpoint load_tensors (lm : list lentry) (d : dict) (n : nat) : option (list P) :=
+    match lm with
+    | [] => None
+    | LTensorFam pre :: _ => mapM (fun i => bind (lookup (KIdx pre i) d) as_pay) (seq 0 n)
+    | _ :: lm' => load_tensors lm' d n
+    end.
+
+  Fixpoint load_labels (lm : list lentry) (d : dict) (n : nat) : option (list P) :=
+    match lm with
+    | [] => None
+    | LLabelList k c :: _ => bind (read d (KConst k) c) as_list
+    | LLabelFam pre off c :: _ => mapM (fun i => bind (read d (KIdx pre i) c) as_pay) (seq 0 (n + off))
+    | _ :: lm' => load_labels lm' d n
+    end.
+
+  Fixpoint load_scalars (lm : list lentry) (d : dict) : option (list (string * value)) :=
+    match lm with
+    | [] => Some []
+    | LScalar a k c :: lm' =>
+        bind (read d (KConst k) c) (fun v => bind (load_scalars lm' d) (fun r => Some ((a, v) :: r)))
+    | _ :: lm' => load_scalars lm' d
+    end.
+
+  Fixpoint assoc (a : string) (l : list (string * value)) : option value :=
+    match l with
+    | [] => None
+    | (b, v) :: l' => if String.eqb a b then Some v else assoc a l'
+    end.
+
+  (* attributes the loader does not set keep the constructor's default [dflt] *)
+  Definition load (lm : list lentry) (dflt : string -> value) (d : dict) : option obj :=
+    if versions_ok lm d then
+      bind (load_nsites lm d) (fun n =>
+      bind (load_tensors lm d n) (fun ts =>
+      bind (load_labels lm d n) (fun ls =>
+      bind (load_scalars lm d) (fun sc =>
+        Some (mk_obj ts ls (fun a => match assoc a sc with Some v => v | None => dflt a end))))))
+    else None.
+End Ser.
+
+Arguments VStr {P} s. Arguments VNat {P} n. Arguments VBool {P} b. Arguments VPay {P} p.
+Arguments VPayAsList {P} p. Arguments VList {P} l.
+Arguments o_tensors {P} o. Arguments o_labels {P} o. Arguments o_scalar {P} o _.
+Arguments mk_obj {P} _ _ _.
+Arguments dump {P} dm m. Arguments load {P} lm dflt d. Arguments conv_apply {P} c v.
+Arguments lookup {P} k d. Arguments emit {P} m e. Arguments emit_fam {P} pre l.
+
+(* ---- the boolean the generated maps must satisfy (symbolic: independent of P and of the object) ---- *)
+
+Definition owns_const (e : dentry) (k : string) : bool :=
+  match e with
+  | DConstStr k' _ | DNSites k' | DScalar k' _ | DLabelList k' => String.eqb k k'
+  | _ => false
+  end.
+
+Definition owns_fam (e : dentry) (pre : string) : bool :=
+  match e with
+  | DTensorFam p | DLabelFam p _ => String.eqb pre p
+  | _ => false
+  end.
+
+(* last writer of a constant key *)
+Fixpoint writer_const (dm : list dentry) (k : string) : option dentry :=
+  match dm with
+  | [] => None
+  | e :: dm' =>
+      match writer_const dm' k with
+      | Some w => Some w
+      | None => if owns_const e k then Some e else None
+      end
+  end.
+
+Definition fam_writers (dm : list dentry) (pre : string) : list dentry := filter (fun e => owns_fam e pre) dm.
+
+Definition conv_keeps_scalar (c : conv) : bool :=
+  match c with CNone | CInt | CBool | CAstypeInt | CItem0 => true | _ => false end.
+Definition conv_keeps_payload (c : conv) : bool :=
+  match c with CNone | CAstypeInt | CItem0 => true | _ => false end.
+Definition conv_keeps_list (c : conv) : bool := match c with CNone => true | _ => false end.
+
+Definition lentry_ok (dm : list dentry) (loff : nat) (e : lentry) : bool :=
+  match e with
+  | LVersionIn k vs =>
+      match writer_const dm k with Some (DConstStr _ s) => existsb (String.eqb s) vs | _ => false end
+  | LNSites k c =>
+      match writer_const dm k with Some (DNSites _) => (match c with CNone | CInt => true | _ => false end) | _ => false end
+  | LTensorFam pre =>
+      match fam_writers dm pre with [DTensorFam _] => true | _ => false end
+  | LLabelList k c =>
+      match writer_const dm k with Some (DLabelList _) => conv_keeps_list c | _ => false end
+  | LLabelFam pre off c =>
+      match fam_writers dm pre with [DLabelFam _ off'] => Nat.eqb off off' && Nat.eqb off loff && conv_keeps_payload c | _ => false end
+  | LScalar a k c =>
+      match writer_const dm k with Some (DScalar _ a') => String.eqb a a' && conv_keeps_scalar c | _ => false end
+  end.
+
+Definition scalar_attrs (lm : list lentry) : list string :=
+  flat_map (fun e => match e with LScalar a _ _ => [a] | _ => [] end) lm.
+
+Fixpoint nodupb (l : list string) : bool :=
+  match l with [] => true | a :: l' => negb (existsb (String.eqb a) l') && nodupb l' end.
+
+Definition has_nsites (lm : list lentry) : bool := existsb (fun e => match e with LNSites _ _ => true | _ => false end) lm.
+Definition has_tensors (lm : list lentry) : bool := existsb (fun e => match e with LTensorFam _ => true | _ => false end) lm.
+Definition has_labels (lm : list lentry) : bool :=
+  existsb (fun e => match e with LLabelList _ _ | LLabelFam _ _ _ => true | _ => false end) lm.
+
+(* loff = how many more label arrays than tensors the object kind has (chain: 1, tree: 0) *)
+Definition maps_ok (dm : list dentry) (lm : list lentry) (loff : nat) : bool :=
+  forallb (lentry_ok dm loff) lm && nodupb (scalar_attrs lm) && has_nsites lm && has_tensors lm && has_labels lm.
+
+(* ------------------------------------------------------------------ side files (dump_mps = "one" / "all")
+   candidate-invariant check: in every reachable directory an un-killed dump raises nothing and leaves
+   each path of [ps] holding the data of THAT dump *)
+Definition inv_post (proto : list op) (ps : list path) (I : list astate) : bool :=
+  forallb (fun x => let r := arun proto (fst x) in
+                    snd r && forallb (fun p => acell_eqb (cell_at AAbs (last (fst r) (fst x)) p) ACur) ps) I.
+
+Definition check_post_inv (proto : list op) (npaths : nat) (ps : list path) (I : list astate) : bool :=
+  inv_closed proto npaths I && inv_post proto ps I.
+
+(* ------------------------------------------------------------------ spill of large site tensors
+   (mps/mp.py: _array2mt, __getitem__, __setitem__).  Hand-written model; tied by correspondence.
+   A slot holds the tensor itself or the name of a .npy file; the file of slot i is "<dir>/<id(self)>/i.npy",
+   so a file is identified by the slot number that wrote it. *)
+Section Spill.
+  Variable P : Type.
+  Variable nbytes : P -> nat.
+
+  Inductive slot := InMem (p : P) | OnDisk (f : nat).
+
+  Record sstate := mk_sstate { s_slots : list slot; s_disk : nat -> option P }.
+
+  Definition disk_set (d : nat -> option P) (f : nat) (v : option P) : nat -> option P :=
+    fun g => if Nat.eqb g f then v else d g.
+
+  Fixpoint set_slot (l : list slot) (i : nat) (s : slot) : list slot :=
+    match l, i with
+    | [], _ => []
+    | _ :: l', O => s :: l'
+    | x :: l', S i' => x :: set_slot l' i' s
+    end.
+
+  (* _array2mt(array, idx): np.save(dir/idx.npy) when dump_matrix_size < nbytes *)
+  Definition array2mt (limit : nat) (idx : nat) (a : P) (d : nat -> option P) : slot * (nat -> option P) :=
+    if Nat.ltb limit (nbytes a) then (OnDisk idx, disk_set d idx (Some a)) else (InMem a, d).
+
+  (* __setitem__(key, array): os.remove(old file) if the old entry is a file name; then _array2mt *)
+  Definition setitem (limit : nat) (key : nat) (a : P) (st : sstate) : sstate :=
+    let d1 := match nth_error (s_slots st) key with
+              | Some (OnDisk f) => disk_set (s_disk st) f None
+              | _ => s_disk st
+              end in
+    let r := array2mt limit key a d1 in
+    mk_sstate (set_slot (s_slots st) key (fst r)) (snd r).
+
+  (* __getitem__(key): np.load(file) for a file name (None = "MPS internal structure corrupted") *)
+  Definition getitem (key : nat) (st : sstate) : option P :=
+    match nth_error (s_slots st) key with
+    | Some (InMem p) => Some p
+    | Some (OnDisk f) => s_disk st f
+    | None => None
+    end.
+
+  (* invariant: a slot that is a file name names ITS OWN file and the file exists; every file on disk
+     belongs to the slot of the same number *)
+  Definition spill_inv (st : sstate) : Prop :=
+    (forall i f, nth_error (s_slots st) i = Some (OnDisk f) -> f = i /\ s_disk st f <> None) /\
+    (forall f, s_disk st f <> None -> nth_error (s_slots st) f = Some (OnDisk f)).
+
+  Definition files_on_disk (st : sstate) : list nat :=
+    filter (fun f => match s_disk st f with Some _ => true | None => false end) (seq 0 (List.length (s_slots st))).
+End Spill.
+
+Arguments InMem {P} p. Arguments OnDisk {P} f.
+Arguments s_slots {P} s. Arguments s_disk {P} s _. Arguments mk_sstate {P} _ _.
+Arguments setitem {P} nbytes limit key a st. Arguments getitem {P} key st.
+Arguments spill_inv {P} st. Arguments files_on_disk {P} st.
